@@ -232,6 +232,39 @@ def compare_table(read, name, mnems, kept, expect_value, last_block_pos):
         other.append('column labels %r, composed %r' % (list(read.colLabels()), list(mnems)))
     if len(read) != len(got_rows):
         other.append('len(table) = %d but %d rows are generated' % (len(read), len(got_rows)))
+    # the table's own views of its rows: names in row order (and sorted), the set of names, membership; a row's membership of columns
+    try:
+        names = [gr.value for gr in got_rows]
+        gen_names = list(read.genRowNames())
+        if gen_names != names:
+            other.append('genRowNames() gives %r, the rows are named %r' % (gen_names[:6], names[:6]))
+        if all(type(n) is bytes for n in names):
+            if list(read.genRowNames(sort=1)) != sorted(names) or list(read.genRowNames(sort=-1)) != sorted(names, reverse=True):
+                other.append('genRowNames(sort) is not the sorted list of the row names')
+            if len(got_rows) == len(kept) and sorted(read.rowLabels()) != sorted(set(names)):
+                other.append('rowLabels() %r is not the set of row names %r' % (sorted(read.rowLabels())[:6], sorted(set(names))[:6]))
+            for n in names[:4] + names[-2:]:
+                if n not in read:
+                    other.append('row name %r is not "in" the table' % n)
+                    break
+            absent_name = next((c for c in (b'\x01\x02\x03\x04', b'~#@!', b'ZQXJ') if c not in names), None)
+            if absent_name is not None and absent_name in read:
+                other.append('%r is "in" the table but no row has that name' % absent_name)
+        for ri, gr in enumerate(got_rows[:3] + got_rows[-1:]):
+            labs = [c.mnem for c in gr.genCells()]
+            if not all(l in gr for l in labs):
+                other.append('a column label of a row is not "in" that row: %r' % labs[:6])
+                break
+            if b'\x01\x02\x03\x04' not in labs and b'\x01\x02\x03\x04' in gr:
+                other.append('a label no cell carries is "in" the row')
+                break
+            # a column label resolves to the first cell that carries it
+            for l in labs[:3]:
+                if gr[l] is not next(c for c in gr.genCells() if c.mnem == l):
+                    other.append('row[%r] is not the first cell labelled %r' % (l, l))
+                    break
+    except Exception as e:  # noqa
+        other.append('row / column membership views raised %s: %s' % (type(e).__name__, str(e)[:120]))
     for ri, (er, gr) in enumerate(zip(kept, got_rows)):
         # a row name stands for the row that was kept (the first of its duplicates)
         if type(er[0][0]) is bytes:
